@@ -420,6 +420,7 @@ func (c *client) Do(ctx context.Context, req *Request, opts ...RequestOption) (r
 	defer c.RUnlock()
 
 	conn := c.conn
+	verifhook.Point("client.Do:conn-picked", verifhook.ID(conn))
 
 	// no conn when the last dial failed
 	if conn == nil {
